@@ -8,6 +8,7 @@ import FlVerif.Drv.Export
 import FlVerif.Drv.Defuzz
 import FlVerif.Drv.Lang
 import FlVerif.Drv.EngineIO
+import FlVerif.Drv.TieModels
 
 /-! Registry of driver command groups: one handler per group, tried in order (`none` = not mine / malformed). -/
 
@@ -24,5 +25,6 @@ def handlers : List (List SExp → Option SExp) :=
   , defuzz
   , lang
   , engineIO
+  , tieModels
   ]
 end Drv
